@@ -234,7 +234,7 @@ func coqNested(c *Call, kinds map[string]string) string {
 		if chain(c.Kind) {
 			kd = lib.CoqApp("SKChain", lib.CoqBool(c.Kind == "subchain"))
 		}
-		return lib.CoqApp("NSub", lib.CoqStr(c.Key), lib.CoqStr(c.ID), kd)
+		return lib.CoqApp("NSub", lib.CoqStr(c.Key), lib.CoqStr(c.ID), kd, coqOpt(c))
 	case "inner":
 		k, known := kinds[c.ID]
 		if c.Sub == nil || !known {
